@@ -122,8 +122,8 @@ func c06Impl(cs *vrt.Case, r *vrt.Rng) {
 	if impl == 0 {
 		max = 40
 	}
-	if !cs.Thorough() && impl == 1 {
-		max = 600
+	if !cs.Thorough() && impl == 1 && cs.Idx%8 >= 2 {
+		max = 600 // plain Chou-Orlandi costs ~150 us per transfer: the systematic cases keep the full size list
 	}
 	nb := r.Range(1, 4)
 	var sizes []int
